@@ -144,8 +144,10 @@ class Line:
 
 
 class Unit:
-    def __init__(self, path, quarantine=()):
+    def __init__(self, path, quarantine=(), known_fns=None):
         self.path = path
+        self.known_fns = known_fns          # names of the functions the unit itself defines (second pass): rule R-inline
+        self.inlined = []
         self.quarantine = set(quarantine)   # functions whose body the verifier front end rejected: kept as contract only
         self.name = os.path.splitext(os.path.basename(path))[0]
         self.props = []
@@ -165,7 +167,15 @@ class Unit:
             p = os.path.join(REPO, rel)
             if not os.path.exists(p):
                 raise ExtractError('missing source file %s' % rel)
-            self.sources[rel] = Source(rel, open(p, encoding='utf-8').read())
+            text_ = open(p, encoding='utf-8').read()
+            if self.known_fns is not None:
+                from .inline import inline_helpers
+                text_, log_ = inline_helpers(text_, self.known_fns, rel)
+                for l_ in log_:
+                    self.inlined.append(l_)
+                if log_:
+                    self.rewrites.append(('R-inline %d call(s) of helper functions the unit does not know replaced by their bodies' % len(log_), rel, len(log_)))
+            self.sources[rel] = Source(rel, text_)
         return self.sources[rel]
 
     def emit(self, text, origin, fn=None):
@@ -398,7 +408,7 @@ class Unit:
         # verified against its contract, so a change that removes the loop AND breaks the postcondition fails
         for k, lines in list(loops.items()):
             if k >= len(lps):
-                self.soft_undecided.append(dict(msg='%s: fn %s has %d loops, contract annotates loop %d' % (where, name, len(lps), k), props=list(props), fn=name, anchor='loop', loops_left=len(lps)))
+                self.soft_undecided.append(dict(msg='%s: fn %s has %d loops, contract annotates loop %d' % (where, name, len(lps), k), props=list(props), fn=name, anchor='loop', loops_left=len(lps), closures=len(s.closures_in(f['open'] + 1, f['close']))))
                 continue
             ins.append((lps[k]['open'] - b0, 'loop%d' % k, lines))
         for k in range(len(lps)):
@@ -424,7 +434,7 @@ class Unit:
                     auto_for = True
         for k, lines in loopends.items():
             if k >= len(lps):
-                self.soft_undecided.append(dict(msg='%s: fn %s has %d loops, contract annotates the end of loop %d' % (where, name, len(lps), k), props=list(props), fn=name, anchor='loop', loops_left=len(lps)))
+                self.soft_undecided.append(dict(msg='%s: fn %s has %d loops, contract annotates the end of loop %d' % (where, name, len(lps), k), props=list(props), fn=name, anchor='loop', loops_left=len(lps), closures=len(s.closures_in(f['open'] + 1, f['close']))))
                 continue
             ins.append((lps[k]['close'] - b0, 'proof', lines))
         cls = s.closures_in(f['open'] + 1, f['close'])
@@ -432,7 +442,7 @@ class Unit:
         # place for the invariant when EXPR is a shim iterator
         for k, lines in forloops.items():
             if k >= len(lps) or lps[k]['kind'] != 'for':
-                self.soft_undecided.append(dict(msg='%s: fn %s: contract annotates for-loop %d which is not there' % (where, name, k), props=list(props), fn=name, anchor='loop', loops_left=len(lps)))
+                self.soft_undecided.append(dict(msg='%s: fn %s: contract annotates for-loop %d which is not there' % (where, name, k), props=list(props), fn=name, anchor='loop', loops_left=len(lps), closures=len(s.closures_in(f['open'] + 1, f['close']))))
                 continue
             lp = lps[k]
             hdr = s.text[lp['kw'] + 3:lp['open']]
@@ -477,7 +487,7 @@ class Unit:
                 hits = [mm for mm in re.finditer(m.group(1), body)]
                 want = int(m.group(2) or 0)
                 if len(hits) <= want:
-                    self.soft_undecided.append(dict(msg='%s: proof anchor /%s/ not found in fn %s' % (where, m.group(1), name), props=list(props), fn=name, anchor='proof', loops_left=len(lps)))
+                    self.soft_undecided.append(dict(msg='%s: proof anchor /%s/ not found in fn %s' % (where, m.group(1), name), props=list(props), fn=name, anchor='proof', loops_left=len(lps), closures=len(s.closures_in(f['open'] + 1, f['close']))))
                     continue
                 off = body.rfind('\n', 0, hits[want].start()) + 1
                 ins.append((off, 'proof', lines))
